@@ -388,3 +388,23 @@ Proof.
   stepd V (add_to_den tb T_ip (oval (nth_o ga 3%nat))). destruct V as (E & D). intros He. specialize (D _ He).
   unfold den in D. cbn [tidn] in D. unfold gen_aec. cbn [fst snd fields_of nth_o nth]. unfold obind. rewrite D. reflexivity.
 Qed.
+
+(* ---------- C04 on the decoded side: a member whose hint is cleared is never returned ---------- *)
+Lemma exp_qr_guard bp gr i : qr_guard bp i = false -> nth i (exp_qr bp gr) None = None.
+Proof.
+  unfold qr_guard, exp_qr, sigb, bit, exp_qsec, exp_rrsec.
+  do 36 (destruct i as [|i]; [cbn [nth]; intros H;
+         repeat match goal with
+                | H : ?a && ?b = false |- _ => apply andb_false_iff in H; destruct H as [H|H]
+                | H : N.testbit ?h ?k = false |- _ => rewrite H; clear H
+                end; try reflexivity; repeat match goal with |- context [if ?c then _ else _] => destruct c end; reflexivity|]).
+  cbn [nth]. destruct i as [|[|[|i]]]; intros H; try discriminate; destruct i; discriminate.
+Qed.
+Theorem decoded_respects_hints bp gr tb tb' l i : tb_ext (fst (build_qr bp gr tb)) tb' ->
+  gen_qr (tbs_of_tables tb') (VR (snd (build_qr bp gr tb))) = Some (VR l) -> qr_guard bp i = false -> nth i l None = None.
+Proof.
+  intros He Hg Hi. destruct (gen_build_qr bp gr tb tb' He) as [G _]. rewrite G in Hg. inversion Hg; subst. apply exp_qr_guard. exact Hi.
+Qed.
+Lemma exp_rr_hints hrr g : exp_rr hrr g = VR [Some (oval (rr_name g)); Some (oval (rr_ct g)); (if N.testbit hrr 0 then rr_ttl g else None);
+                                              (if N.testbit hrr 1 then rr_rdata g else None)].
+Proof. reflexivity. Qed.
